@@ -13,7 +13,7 @@ man = dict(version=1,
                       baseline_off_cmd="cd /repo && /venv/bin/python -m pytest -ra -q -p no:cacheprovider --timeout=900 --continue-on-collection-errors",
                       source_commits=[], add_only=True),
            engines=[dict(name="pyvc", path="pyvc/", serves_properties=sorted(checks.PROPS), kind_free_text="own VC generator: symbolic execution of the real Python AST under sidecar contracts; z3 (python API) and cvc5 CLI back ends; native replay and bounded stand-ins under /venv/bin/python")],
-           checks=[], not_applicable=[], notes="see DESIGN.md; known_findings.json lists the thirteen defects of btclib found and repaired (fix: commits in /repo); seeded/ holds 59 independent property-breaking changes with the output of the check that catches each")
+           checks=[], not_applicable=[], notes="see DESIGN.md; known_findings.json lists the fifteen defects of btclib found and repaired (fix: commits in /repo); seeded/ holds 59 independent property-breaking changes with the output of the check that catches each")
 for p in props:
     pid = p["id"]
     cfg = checks.PROPS.get(pid)
